@@ -565,6 +565,14 @@ class Scenario:
                 sv = self.deps.single_value(e.id)
                 return eval_expr(sv, self.env) if sv is not None and not isinstance(sv, (ast.Await, ast.Yield)) else NOVALUE
             nodes = [n for n in self._defnodes.get(e.id, []) if n.id in self.reach and not getattr(n.ast, "_inline_init", False)]
+            at = getattr(self, "_at", None)
+            if at is not None and len(nodes) > 1:
+                # reaching definitions: a definition counts only if it can reach the node being evaluated
+                # without being overwritten by another definition of the same name
+                others = set(self._defnodes.get(e.id, []))
+                reaching = [dn for dn in nodes if self.g.search([dn], lambda x: x is at, skip_node=lambda x, dn=dn: x in others and x is not dn and x is not at) is not None]
+                if reaching:
+                    nodes = reaching
             n_defs = len([1 for k, _ in self.deps.defs(owner, e.id)])
             walrus = [x for x in self.deps.fi.own_nodes() if isinstance(x, ast.NamedExpr) and x.target.id == e.id]
             if not nodes and not walrus:
@@ -594,7 +602,11 @@ class Scenario:
         if a.kind not in ("test", "match-case") or lab not in ("T", "F"):
             return False
         if a.id not in self._cache:
-            self._cache[a.id] = eval_pattern(a.ast, self.env) if a.kind == "match-case" else eval_expr(a.ast, self.env)  # type: ignore[arg-type]
+            self._at = a
+            try:
+                self._cache[a.id] = eval_pattern(a.ast, self.env) if a.kind == "match-case" else eval_expr(a.ast, self.env)  # type: ignore[arg-type]
+            finally:
+                self._at = None
         v = self._cache[a.id]
         if v is NOVALUE:
             return False
